@@ -14,6 +14,7 @@ CONSTANTS
   DEV_DirThroughLink = FALSE
   DEV_WalkRawName = FALSE
   DEV_LinkRawName = FALSE
+  DEV_LinkOneSlash = FALSE
 VIEW View
 INVARIANT TypeOK
 CHECK_DEADLOCK FALSE
